@@ -82,6 +82,16 @@ func init() {
 	})
 	// the inbound messages arrive right after the CONNACK: the read routine owes
 	// acknowledgements while the writers are still at work
+	// no PauseTimeout, and the peer stops reading while a request is being
+	// written: only the read routine's Close can release that writer, and it
+	// has to come before the read routine waits for the write token
+	register("wedgeblock", func() *Scenario {
+		s := scenarios["wedge"]()
+		s.Config.PauseTimeout = 0
+		s.Faults = Faults{WriteBlock: true, ReadErr: true, CutHalf: true}
+		s.Inbound = nil // a read routine that owes an acknowledgement queues up behind the writer before it sees any failure
+		return s
+	})
 	register("wedgeburst", func() *Scenario {
 		s := scenarios["wedge"]()
 		s.Burst = true
